@@ -1148,11 +1148,8 @@ pub(crate) fn rename_sheet_in_node(node: &mut Node, sheet_index: u32, new_name: 
                 }
             }
         }
-        Node::WrongRangeKind { sheet_name, .. } => {
-            if sheet_name.is_some() {
-                *sheet_name = Some(new_name.to_owned());
-            }
-        }
+        // A range on a sheet that does not exist does not point at the renamed sheet
+        Node::WrongRangeKind { .. } => {}
 
         // Go next level
         Node::OpRangeKind { left, right } => {
